@@ -5,6 +5,7 @@
 From TenpyV Require Import Base.Prelude Base.PyLib Gen.G_trotter Gen.G_acct.
 From TenpyV Require Import Model.Trotter Model.TimeAcct Proofs.TrotterP Proofs.TimeAcctP.
 From TenpyV Require Import Model.TrotterMerge Proofs.TrotterP2.
+From TenpyV Require Import Model.TrotterMergeCheck Proofs.TrotterP3.
 From Coq Require Import QArith String.
 Open Scope Z_scope.
 
@@ -36,9 +37,17 @@ Qed.
    ('4_opt', a1_twice), whose time is exactly twice the half step.  Equality: same length, same parities,
    times equal as polynomials (PyLib.peqb: every coefficient Qeq).  Hence the N-step schedule inherits the
    order of the one-step pattern.
-   `merge`, `sched_eqb` (Model/TrotterMerge.v) have no correspondence checker of their own: they are tied to
-   the code only through `timed`, `time_steps_gen`, `decomposition_gen` (regenerated from tebd.py and
-   correspondence-checked), which they are applied to. *)
+   TIE: `merge` / `timed` applied to the regenerated tables are executed against REAL engines by the
+   correspondence stream `merge` of harness/c14.py (checker check_merge, Model/TrotterMergeCheck.v): the
+   evolve_step(U_idx_dt, odd) calls of TEBDEngine / QRBasedTEBDEngine runs (N_steps split over one or several
+   run() calls; plus the two static methods alone for larger N) are recorded from outside, each with the
+   time with which the engine computed U[U_idx_dt], merged over equal parity in Python with exact Fractions,
+   and Coq compares the result with BOTH sides of this theorem (and with merge of `run_sched`, see
+   T14_trotter_merge_splits) evaluated at the float value of t1 as an exact rational: same length, same
+   parities, times EQUAL in Q for orders 1, 2, 4 (the code's floats are exact values of the time-step
+   polynomials there), within 10^-12 for '4_opt' (rounded decimal constants).  `sched_eqb` / `peqb`
+   (equality as polynomials) is not executed against the code - it is the statement's equality; the stream
+   compares values at one rational point. *)
 Theorem T14_trotter_merge : forall o, In o orders -> forall N, 1 <= N ->
   exists ds stepsN steps1,
     time_steps_gen o = Some ds /\ decomposition_gen o N = Some stepsN /\
@@ -53,6 +62,55 @@ Theorem T14_merge_normal_form : forall l,
   alternating (merge l) = true /\ (alternating l = true -> merge l = l) /\ merge (merge l) = merge l /\
   forall x k, (sched_time x k (merge l) == sched_time x k l)%Q.
 Proof. exact merge_normal_form. Qed.
+
+(* ANY split of the total into run() calls (the quantifier "any split of the total time into run() calls" of
+   the property, for the schedule): for orders 1, 2, 4, '4_opt' and every list ns of N_steps >= 0 (0 allowed:
+   such a call schedules nothing), the concatenation of the timed schedules of the single calls
+   (`run_sched`, Model/TrotterMergeCheck.v: TEBDEngine.evolve iterates over suzuki_trotter_decomposition(order,
+   N_steps) once per call) equals, after merging adjacent entries of equal parity, the merged schedule of ONE
+   call with sum ns steps (same length, same parities, times equal as polynomials).  Proved from
+   T14_trotter_merge and the congruence of merge below, induction on ns.  `run_sched` is executed against
+   real engines (several run() calls on one engine) by the stream `merge`. *)
+Theorem T14_trotter_merge_splits : forall o, In o orders -> forall ns, Forall (fun n => 0 <= n) ns ->
+  exists ds steps runs,
+    time_steps_gen o = Some ds /\ decomposition_gen o (sumZ ns) = Some steps /\
+    run_sched o ds ns = Some runs /\
+    sched_eqb (merge runs) (merge (timed ds steps)) = true.
+Proof. exact trotter_merge_splits. Qed.
+
+(* merge is a congruence for concatenation: schedules with equal normal forms can be exchanged inside any
+   longer schedule (sched_eq: same length, same parities, times equal coefficientwise in Q) *)
+Theorem T14_merge_congruence : forall a a' b b',
+  sched_eq (merge a) (merge a') -> sched_eq (merge b) (merge b') -> sched_eq (merge (a ++ b)%list) (merge (a' ++ b')%list).
+Proof. exact merge_congruence. Qed.
+
+(* order 4, run() calls with 2, 0, 1, 3 steps: 21 + 0 + 11 + 31 = 63 raw entries against 61 of one 6-step call;
+   the raw lists differ, the merged ones agree *)
+Example T14_merge_splits_example :
+  match time_steps_gen (OInt 4), decomposition_gen (OInt 4) 6 with
+  | Some ds, Some s6 =>
+      match run_sched (OInt 4) ds [2; 0; 1; 3] with
+      | Some runs =>
+          Forall (fun n => 0 <= n) [2; 0; 1; 3] /\ sumZ [2; 0; 1; 3] = 6 /\
+          sched_eqb (merge runs) (merge (timed ds s6)) = true /\
+          (List.length runs = 63 /\ List.length (timed ds s6) = 61)%nat /\
+          sched_eqb runs (timed ds s6) = false
+      | None => False
+      end
+  | _, _ => False
+  end.
+Proof. vm_compute. repeat split; repeat constructor; discriminate. Qed.
+
+(* the hypotheses of the congruence are satisfiable by different lists *)
+Example T14_merge_congruence_example :
+  let a := [(pconst (1 # 2), 1); (pconst (1 # 2), 1)] in let a' := [(pconst 1, 1)] in
+  let b := [(pconst 1, 0)] in
+  a <> a' /\ sched_eq (merge a) (merge a') /\ sched_eq (merge b) (merge b) /\
+  sched_eqb (merge (a ++ b)%list) (merge (a' ++ b)%list) = true.
+Proof.
+  cbv zeta. split; [discriminate|]. split; [apply sched_eqb_spec; vm_compute; reflexivity|].
+  split; [apply sched_eq_refl|vm_compute; reflexivity].
+Qed.
 
 (* N = 3, order 4: both sides evaluated; the raw lists differ (31 entries against 33, the repetition has
    two seams with two adjacent odd half steps each), the merged ones agree and have 31 entries *)
@@ -114,3 +172,5 @@ Print Assumptions T14_all_engines_single_add.
 Print Assumptions T14_all_engines_exact.
 Print Assumptions T14_trotter_merge.
 Print Assumptions T14_merge_normal_form.
+Print Assumptions T14_trotter_merge_splits.
+Print Assumptions T14_merge_congruence.
